@@ -66,7 +66,11 @@ def readonly_ops(p, rng, faults=True):
     vs = p.verts()
     us = p.universes()
     m = str(rng.getrandbits(64))
-    mt = str(rng.getrandbits(64) | 1)     # traversals use their own filter: the model's traversals do not fill memos
+    # traversals use their own filter table: whether a traversal leaves a memo entry behind is modelled
+    # (EG.TravState) but no property speaks about it, so the correspondence is kept independent of it
+    # (a rewrite in which traversals bypass the memo must not raise an alarm); the memo traffic is tied
+    # softly in the C05 check (`memo_traffic` in its evidence)
+    mt = str(rng.getrandbits(64) | 1)
     ops = []
     for v in vs:
         d, u = rng.choice([0, 1, 2]), rng.choice([0, 1, 2])
@@ -91,11 +95,13 @@ def readonly_ops(p, rng, faults=True):
 
 class C13(Check):
     id = "C13"
-    modules = ["EG.Props.C13"]
+    modules = ["EG.Props.C13", "EG.Props.C05Trav"]
     assumptions = ["callbacks have no side effects of their own other than raising",
                    "the contents of the neighbor memo are not part of the observable graph (C05 shows they are always correct)",
-                   "for traversals / searches / renderers the model is a function from the world (the code contains no store): "
-                   "their frame property is established on the real code by the snapshot oracle and the fault sweep, not by a theorem"]
+                   "traversals and searches are modelled WITH their memo traffic (EG.TravState; theorems C13_traversal_readonly, "
+                   "C13_search_readonly, C13_queries_invisible_x); for renderers / pickling the model is a function from the world "
+                   "(the code contains no store): their frame property is established on the real code by the snapshot oracle and "
+                   "the fault sweep, not by a theorem; faults inside traversal / renderer callbacks are swept on the real code only"]
 
     def witnesses(self):
         return [("D11", W.D11)]
